@@ -42,6 +42,17 @@ def gen_workspace(r, widx):
     for b in bps:
         if comps and r.random() < 0.35:
             b["dir"] = "%s/nested/%s" % (r.choice(comps)["dir"], b["crate"])
+    # ids with more than one '/': "meta/comp0/extra" is a buildpack of its own, and its output directory is not inside that of "meta/comp0"
+    if comps and r.random() < 0.4:
+        old = bps[0]["id"]
+        bps[0]["id"] = comps[0]["id"] + "/extra"
+        for c in comps:
+            c["deps"] = ["libcnb:" + bps[0]["id"] if d == "libcnb:" + old else d for d in c["deps"]]
+        if "libcnb:" + bps[0]["id"] not in comps[0]["deps"]:
+            comps[0]["deps"].append("libcnb:" + bps[0]["id"])
+    # a composite whose directory also holds a Cargo.toml (it is still a composite: it has an order)
+    for c in comps:
+        c["cargo_toml"] = r.random() < 0.3 and not any(b["dir"].startswith(c["dir"] + "/") for b in bps)
     # where cargo puts its artifacts: the default, CARGO_TARGET_DIR pointing outside the workspace, or [build] target-dir in .cargo/config.toml
     return {"idx": widx, "bps": bps, "comps": comps, "foreign": r.random() < 0.6, "target_mode": r.choice(["default", "default", "unset", "env-elsewhere", "config"])}
 
@@ -81,6 +92,12 @@ def write_workspace(root, ws):
         groups = "".join('[[order.group]]\nid = "%s"\nversion = "0.1.0"\n' % dep[len("libcnb:"):] for dep in c["deps"] if dep.startswith("libcnb:"))
         with open(os.path.join(d, "buildpack.toml"), "w") as f:
             f.write('api = "0.10"\n\n[buildpack]\nid = "%s"\nversion = "0.1.0"\n\n[[order]]\n%s' % (c["id"], groups))
+        if c.get("cargo_toml"):
+            with open(os.path.join(d, "Cargo.toml"), "w") as f:
+                f.write('[package]\nname = "%s-helper"\nversion = "0.0.0"\nedition = "2021"\n' % c["id"].replace("/", "-"))
+            os.makedirs(os.path.join(d, "src"))
+            with open(os.path.join(d, "src", "lib.rs"), "w") as f:
+                f.write("")
         with open(os.path.join(d, "package.toml"), "w") as f:
             d = {"buildpack": {"uri": c["bp_uri"]}, "dependencies": [{"uri": u} for u in c["deps"]]}
             if c["os"]:
@@ -91,6 +108,11 @@ def write_workspace(root, ws):
         os.makedirs(d)
         with open(os.path.join(d, "buildpack.toml"), "w") as f:
             f.write('api = "0.10"\n\n[buildpack]\nid = "other/shell"\nversion = "1.0.0"\n')
+        # another tool's buildpack whose buildpack.toml uses keys libcnb's data types do not know: not a libcnb.rs buildpack, passed over
+        d = os.path.join(root, "other", "exotic-bp")
+        os.makedirs(d)
+        with open(os.path.join(d, "buildpack.toml"), "w") as f:
+            f.write('api = "0.10"\n\n[buildpack]\nid = "other/exotic"\nversion = "1.0.0"\n\n[[targets]]\nos = "linux"\narch = "amd64"\n[[targets.distributions]]\nname = "ubuntu"\nversions = ["24.04"]\n')
     os.makedirs(os.path.join(root, "docs"))
     os.makedirs(os.path.join(root, "buildpacks"), exist_ok=True)
 
@@ -318,7 +340,10 @@ def scenario(arg):
         all_ids = [x["id"] for x in ws["bps"] + ws["comps"]]
         # (a) clean runs: root/dev into the default dir, one buildpack dir, release into a custom dir
         invocations = [(".", "dev", None)]
-        pick = r.choice(ws["comps"] or ws["bps"])
+        # (a composite directory with its own Cargo.toml is a Cargo package outside the workspace: cargo refuses to run inside it, so
+        # such directories are packaged from the workspace root only)
+        own_manifest = {c["dir"] for c in ws["comps"] if c.get("cargo_toml")}
+        pick = r.choice([x for x in (ws["comps"] or ws["bps"]) if x["dir"] not in own_manifest] or ws["bps"])
         invocations.append((pick["dir"], "dev", None))
         invocations.append((".", "release", "out-custom"))
         invocations.append(("docs", "dev", None))
@@ -330,6 +355,7 @@ def scenario(arg):
         if tier == "thorough":
             for x in ws["bps"] + ws["comps"]:
                 invocations.append((x["dir"], r.choice(["dev", "release"]), r.choice([None, "out-custom", os.path.join(root, "abs-out")])))
+        invocations = [iv for iv in invocations if iv[0] not in own_manifest]
         for cwd_rel, profile, pd in invocations:
             pdir = os.path.join(root, "packaged") if pd is None else (pd if os.path.isabs(pd) else os.path.normpath(os.path.join(root, cwd_rel, pd)))
             vp.rmtree(pdir)
